@@ -146,7 +146,9 @@ fn needs_quotes(arg: &str, first_arg_no_output: bool) -> bool {
     }
     let first = arg.chars().next().unwrap();
     let last = arg.chars().last().unwrap();
-    if first.is_whitespace() || last.is_whitespace() {
+    // a leading white-space character other than the space is an ordinary first character of an unquoted argument
+    // (only the space separates); a trailing one could be eaten by the trimming of the line, so it is quoted
+    if first == ' ' || last.is_whitespace() {
         return true;
     }
     if first_arg_no_output && first == '=' {
